@@ -446,3 +446,118 @@ Proof.
     unfold bw_advance in Eadv. destruct (Nat.ltb (length (win b)) i); [discriminate|]. inversion Eadv; subst bi. cbn [win cap] in *.
     split; [|split; [reflexivity|lia]]. right. rewrite <- H3. rewrite (skipn_nth_cons _ _ _ Hnth). reflexivity.
 Qed.
+
+(* ---------- the whole run ---------- *)
+Lemma rok_pos input r : rok input r -> reader_position r + length (stream_of r) = length input.
+Proof.
+  intros [(pre & Hin & Hlen) _]. unfold reader_position, stream_of. rewrite Hin, !app_length. lia.
+Qed.
+
+Lemma startb_pos r : reader_position r > 0 -> startb r = false.
+Proof. unfold startb. intros H. replace (Nat.eqb (reader_position r) 0) with false; [reflexivity|]. symmetry. apply Nat.eqb_neq. lia. Qed.
+
+Definition srel (r : reader) (start : bool) (sref : bytes) : Prop :=
+  (sref = stream_of r /\ start = startb r) \/
+  (sref = 32%N :: stream_of r /\ start = false /\ reader_position r > 0).
+
+Theorem run_spec input : wf_bytes input -> forall n fuel r start sref,
+  rok input r -> srel r start sref ->
+  length sref < n -> length input + 2 <= fuel ->
+  capok (rbw r) (rrd r) (snd (rr start sref)) ->
+  run_next n fuel r = (fst (fst (rr start sref)), length input - snd (fst (rr start sref))).
+Proof.
+  intros Hwf. induction n as [|n IH]; intros fuel r start sref Hrok Hrel Hn Hfuel Hcap; [lia|].
+  cbn [run_next].
+  pose proof (rok_pos input r Hrok) as Hpos.
+  assert (Hrest : length (rest (rrd r)) <= length input).
+  { unfold stream_of in Hpos. rewrite app_length in Hpos. lia. }
+  assert (Htk : fst (tk (startb r) (stream_of r)) = fst (tk start sref) /\
+                snd (tk (startb r) (stream_of r)) <= snd (tk start sref)).
+  { destruct Hrel as [[-> ->]|(-> & -> & Hp)]; [split; [reflexivity|lia]|].
+    rewrite (startb_pos r Hp), tk_space. split; [reflexivity|apply snd_bump]. }
+  destruct Htk as [Htk1 Htk2].
+  rewrite rr_unfold in Hcap |- *.
+  assert (Hcap1 : capok (rbw r) (rrd r) (snd (tk (startb r) (stream_of r)))).
+  { eapply capok_mono; [exact Hcap|reflexivity| |auto].
+    destruct (tk start sref) as [[t s'| |k] nd0]; cbn [snd] in *; [|lia|lia].
+    destruct (rr false s') as [[l rem] m]. cbn [snd]. lia. }
+  pose proof (next_opt_step input fuel r Hwf Hrok ltac:(lia) Hcap1) as Hstep.
+  rewrite Htk1 in Hstep.
+  destruct (tk start sref) as [[t s'| |k] nd0] eqn:Etk; cbn [fst snd stepres_ws stepres] in Hstep.
+  - destruct Hstep as (r' & Hno & Hrok' & Hs' & Hc' & Hr').
+    rewrite Hno.
+    pose proof (tk_tok_shrinks (length sref) start sref t s' nd0 (le_n _) Etk) as Hshr.
+    pose proof (rok_pos input r' Hrok') as Hpos'.
+    assert (Hlen' : length (stream_of r') <= length s').
+    { destruct Hs' as [<- | ->]; cbn [length]; lia. }
+    assert (Hp' : reader_position r' > 0).
+    { destruct Hrel as [[-> ->]|(-> & -> & Hp)]; cbn [length] in *; lia. }
+    assert (Hrel' : srel r' false s').
+    { destruct Hs' as [<- | ->]; [left; split; [reflexivity|symmetry; apply startb_pos; exact Hp']|right; auto]. }
+    specialize (IH fuel r' false s' Hrok' Hrel' ltac:(lia) Hfuel).
+    destruct (rr false s') as [[l rem] m] eqn:Err. cbn [fst snd] in *.
+    rewrite IH; [reflexivity|].
+    eapply capok_mono; [exact Hcap|exact Hc'|lia|].
+    intros H0. rewrite H0 in Hr'. cbn [length] in Hr'. destruct (rest (rrd r')); [reflexivity|cbn [length] in Hr'; lia].
+  - destruct Hstep as (r' & Hno & Hrok' & Hs'). rewrite Hno. cbn [fst snd].
+    pose proof (rok_pos input r' Hrok') as Hpos'. rewrite Hs' in Hpos'. cbn [length] in Hpos'. f_equal. lia.
+  - destruct Hstep as (r' & Hno & Hrok' & Hs'). rewrite Hno. cbn [fst snd].
+    pose proof (rok_pos input r' Hrok') as Hpos'. f_equal. lia.
+Qed.
+
+(* ---------- Theorem 2: the zero-copy reader is the reference tokenizer ---------- *)
+Theorem slice_eq_tok : forall input, wf_bytes input ->
+  run_slice input = (tokens_of input, length input - leftover input).
+Proof.
+  intros input Hwf. unfold run_slice, tokens_of, leftover, ref_tokens.
+  change (ref_run (S (length input)) true input) with (rr true input).
+  apply (run_spec input Hwf).
+  - split; [|intros H; exact H]. exists []. cbn. rewrite app_nil_r. auto.
+  - left. split; [unfold stream_of; cbn; rewrite app_nil_r; reflexivity|reflexivity].
+  - lia.
+  - unfold default_fuel. lia.
+  - left. split; reflexivity.
+Qed.
+
+(* ---------- Theorem 3: the streaming reader is the reference tokenizer, hence the slice reader ---------- *)
+Theorem stream_eq_tok : forall input sch capv, wf_bytes input -> no_fail sch -> need input <= capv ->
+  run_stream capv sch input = (tokens_of input, length input - leftover input).
+Proof.
+  intros input sch capv Hwf Hnf Hneed. unfold run_stream, tokens_of, leftover, need, ref_tokens in *.
+  change (ref_run (S (length input)) true input) with (rr true input) in *.
+  apply (run_spec input Hwf).
+  - split; [|exact Hnf]. exists []. cbn. auto.
+  - left. split; reflexivity.
+  - cbn. lia.
+  - unfold default_fuel. lia.
+  - cbn [reader_new rbw rrd bw_new cap rest]. destruct capv as [|cv].
+    + left. split; [reflexivity|]. destruct input as [|c0 input']; [reflexivity|]. exfalso.
+      rewrite rr_unfold in Hneed. pose proof (tk_need_ge true (c0 :: input')) as Hge.
+      assert (H1 : 1 <= inee (item true (c0 :: input'))).
+      { clear. cbn [item]. destruct (is_ws c0); [cbn; lia|].
+        destruct (b_is c0 35). { destruct (find_from _ input' 0); cbn [inee]; lia. }
+        destruct (b_is c0 123); [cbn; lia|]. destruct (b_is c0 125); [cbn; lia|].
+        destruct (b_is c0 34). { destruct (rq_scan input' 0); cbn [inee]; lia. }
+        assert (Hu : forall m, 1 <= inee (bump_item m (unq_item (c0 :: input')))).
+        { intros m. unfold unq_item. destruct (find_from _ _ 0); cbn [bump_item inee]; lia. }
+        assert (Ho : forall a b, 1 <= inee (op_item input' a b)).
+        { intros a b. unfold op_item. destruct input' as [|c3 s1]; [cbn; lia|]. destruct (b_is c3 61); cbn; lia. }
+        destruct (b_is c0 64).
+        { destruct input' as [|c2 s1]; [cbn; lia|]. destruct (b_is c2 91).
+          - destruct (find_from _ s1 0); cbn [inee]; lia.
+          - specialize (Hu 0). rewrite bump_item_0 in Hu. exact Hu. }
+        destruct (b_is c0 61); [apply Ho|]. destruct (b_is c0 60); [apply Ho|]. destruct (b_is c0 33); [apply Ho|].
+        destruct (b_is c0 63); [apply Ho|]. destruct (b_is c0 62); [apply Ho|].
+        destruct (b_is c0 239 && true).
+        { destruct input' as [|b1 [|b2 s3]]; [cbn; lia|cbn; lia|]. destruct (b_is b1 187 && b_is b2 191); [cbn; lia|apply Hu]. }
+        specialize (Hu 0). rewrite bump_item_0 in Hu. exact Hu. }
+      destruct (tk true (c0 :: input')) as [[t s'| |k] nd0]; cbn [snd] in *; [|lia|lia].
+      destruct (rr false s') as [[l rem] m]. cbn [snd] in Hneed. lia.
+    + right. unfold bw_new. cbn [cap]. split; [lia|exact Hneed].
+Qed.
+
+Theorem stream_eq_slice : forall input sch capv, wf_bytes input -> no_fail sch -> need input <= capv ->
+  run_stream capv sch input = run_slice input.
+Proof.
+  intros. rewrite stream_eq_tok, slice_eq_tok by assumption. reflexivity.
+Qed.
